@@ -150,6 +150,14 @@ def op_for(gen, net, cls, m, rng):
     return ops.Op(m)
 
 
+def _small_complex(rng, pool):
+    """A small complex over (part of) the pool, built simplex by simplex (never through a bulk format)."""
+    S = xgi.SimplicialComplex()
+    for _ in range(3):
+        S.add_simplex(ops.rand_members(rng, list(pool), 1, 3))
+    return S
+
+
 def run_case(mon, kind, idx, rng):
     cls, m = kind.split(".", 1)
     N, gen = make_net(rng, cls)
@@ -260,7 +268,7 @@ def run_case(mon, kind, idx, rng):
     if cls == "SimplicialComplex" and m == "dual" and max(N.degree().values()) > 6:
         # the dual of a complex is built as a complex (a node of degree d becomes a d-simplex with 2^d faces):
         # keep the input small enough for the call to finish
-        N = xgi.SimplicialComplex([ops.rand_members(rng, gen.npool[:5], 1, 3) for _ in range(3)])
+        N = _small_complex(rng, gen.npool[:5])
     try:
         op = op_for(gen, N, cls, m, rng)
     except KeyError:
